@@ -3,8 +3,8 @@ import Usual.C13.PgQuote
 import Usual.C13.PgLex
 import Usual.C13.PgArray
 /-! Model driver for C13: one op per line, see harness/C13/h.c for the op language.
-    `lit <hex|null> <n>` · `id <hex> <n>` · `fq <hex> <n>` · `kw <hex>` · `arr <hex>`
-    (`…old` variants run the model of the unrepaired code; used by replay notes only). -/
+    `lit <hex|null> <n>` · `id <hex> <n>` · `fq <hex> <n>` · `kw <hex>` · `arr <hex>`.
+    Output: observable part ` ## ` internal part (the whole destination block after the call). -/
 open Usual Usual.C13
 
 def toNats (l : List UInt8) : List Nat := l.map (·.toNat)
